@@ -216,4 +216,190 @@ class RegionExtract(Harness):
         return cl
 
 
-HARNESSES = [RegionExtract()]
+class RegionExtractMulti(Harness):
+    """a region built by the real formation code from two protoclusters (so several candidate clusters, each referring to several
+    protoclusters), any region of any record: every record-wide number of its areas is raised by a symbolic offset"""
+    pid, name = "C12", "region_extract_multi"
+    functions = RegionExtract.functions + ["antismash.common.secmet.record:Record.create_candidate_clusters",
+                                           "antismash.common.secmet.record:Record.create_regions"]
+    bound = ("the first region of a record with two protoclusters (cores inside extents; overlapping, nested, neighbouring or far apart; "
+             "extents simple, the first optionally origin-spanning), the candidate clusters and regions the real formation code builds "
+             "from them, and a real prepeptide (leader, core, tail) on a gene inside the first protocluster; symbolic coordinates and "
+             "record length; the record-wide numbers of all protoclusters / candidates are raised by symbolic offsets")
+    outside = RegionExtract.outside.replace("several candidates per region; ", "")
+    stubs = RegionExtract.stubs + ["Protocluster.__hash__ pinned to hash(product)"]
+    task_paths = 150
+
+    def variants(self, tier):
+        out = [{"shape": "s", "prepeptide": False}, {"shape": "s", "prepeptide": True}, {"shape": "o", "prepeptide": False}]
+        if tier == "thorough":
+            out.append({"shape": "o", "prepeptide": True})
+        return out
+
+    def vars(self, var):
+        d = {"n": "int", "x": "int", "kp": "int", "kc": "int"}
+        d.update(shape_vars("e0", var["shape"]))
+        d.update(shape_vars("c0", "s"))
+        d.update(shape_vars("e1", "s"))
+        d.update(shape_vars("c1", "s"))
+        d.update(shape_vars("g", "s"))
+        return d
+
+    def pre(self, var, v):
+        n = v["n"]
+        e0 = model_parts("e0", var["shape"], v)
+        c = [shape_pre("e0", var["shape"], v, n), shape_pre("c0", "s", v, n), shape_pre("e1", "s", v, n), shape_pre("c1", "s", v, n),
+             shape_pre("g", "s", v, n), contains_parts(e0, model_parts("c0", "s", v)),
+             contains_parts(model_parts("e1", "s", v), model_parts("c1", "s", v)),
+             contains_parts(model_parts("c0", "s", v), model_parts("g", "s", v)),
+             0 <= v["x"], v["x"] < n, 0 <= v["kp"], 0 <= v["kc"]]
+        if var["prepeptide"]:
+            c.append(v["ge0"] - v["gs0"] == 18)       # leader M, core AGIC, tail C: six residues
+        return L.And(c)
+
+    def run(self, var, v):
+        if L.issym(v["n"]):
+            from ..core import ENG
+            ENG.lazy_tokens = True
+        Protocluster.__hash__ = lambda self: hash(self.product)
+        n = v["n"]
+        circ = var["shape"] == "o"
+        rec = mkrecord(n, circ)
+        rec.id = "rec"
+        gene = DummyCDS(location=build("g", "s", v), locus_tag="gene", translation="A")
+        rec.add_cds_feature(gene)
+        for i, sh in enumerate((var["shape"], "s")):
+            rec.add_protocluster(Protocluster(build("c%d" % i, "s", v), build("e%d" % i, sh, v), tool="test", product="p%d" % i,
+                                              cutoff=1, neighbourhood_range=0, detection_rule="r"))
+        if var["prepeptide"]:
+            from antismash.common.secmet.features import Prepeptide
+            pre = Prepeptide(build("g", "s", v), "lanthipeptide", "AGIC", "gene", "lanthipeptides", "Class-II", 15.5, 3000.25, 3010.75,
+                             leader="M", tail="C")
+            pre.domain_id = "lanthipeptides_gene_1"
+            rec.add_cds_motif(pre)
+        rec.create_candidate_clusters()
+        rec.create_regions()
+        # the region holding the first protocluster (and the gene); it may be any region of any record
+        first = [p for p in rec.get_protoclusters() if p.product == "p0"][0]
+        region = [r for r in rec.get_regions() if any(first in c.protoclusters for c in r.candidate_clusters)][0]
+        for proto in rec.get_protoclusters():
+            rec._protocluster_numbering[proto] = rec._protocluster_numbering[proto] + v["kp"]
+        for cand in rec.get_candidate_clusters():
+            rec._candidate_clusters_numbering[cand] = rec._candidate_clusters_numbering[cand] + v["kc"]
+        bio = rec.to_biopython()
+        members = region.get_unique_protoclusters()
+        expected = {"protoclusters": sorted(((canon_loc(p.location), canon_loc(p.core_location), p.product) for p in members),
+                                            key=lambda row: row[2]),
+                    "candidates": [(canon_loc(c.location), sorted(p.product for p in c.protoclusters)) for c in region.candidate_clusters],
+                    "region": canon_loc(region.location)}
+
+        def quals(features):
+            return [sorted((k, list(val) if isinstance(val, list) else val) for k, val in f.qualifiers.items()) for f in features]
+        before = [canon_loc(f.location) for f in bio.features]
+        quals_before = quals(bio.features)
+        fake = FakeSeqRecord(n, bio.features, {"topology": "circular" if circ else "linear"})
+        captured = []
+
+        def snapshot(records, handle, fmt):
+            out_rec = records[0]
+            feats = []
+            for f in out_rec.features:
+                q = f.qualifiers
+                row = {"type": f.type, "loc": canon_loc(f.location), "product": q.get("product", [None])[0],
+                       "products": sorted(q.get("product", []))}
+                for key in ("protocluster_number", "candidate_cluster_number"):
+                    row[key] = cn(num(q[key][0])) if key in q else None
+                for key in ("protoclusters", "candidate_cluster_numbers"):
+                    row[key] = [cn(num(t)) for t in q[key]] if key in q else None
+                for key in ("leader_location", "tail_location", "core_location"):
+                    row[key] = canon_loc(location_from_string(q[key][0])) if key in q else None
+                row["prepeptide"] = q.get("prepeptide", [None])[0]
+                feats.append(row)
+            captured.append({"len": cn(out_rec._n), "features": feats})
+        orig_write = rh.seqio.write
+        rh.seqio.write = snapshot
+        try:
+            data = rh.RegionData(start=region.start, end=region.end, candidate_clusters=region.candidate_clusters,
+                                 subregions=region.subregions)
+            rh.write_to_genbank(data, fake, None)
+        finally:
+            rh.seqio.write = orig_write
+        res = captured[0]
+        res.update({"before": before, "after": [canon_loc(f.location) for f in bio.features],
+                    "qualifiers_unchanged": quals_before == quals(bio.features), "expected": expected})
+        return res
+
+    def post(self, var, v, out):
+        if is_raised(out):
+            return [("no_raise", False)]
+        n, x = v["n"], v["x"]
+        exp = out["expected"]
+        region = [(p[0], p[1]) for p in exp["region"]]
+        start, rlen = region[0][0], parts_len(region)
+
+        def shifted(pos):
+            return (pos - start + n) % n
+
+        def same_bases(orig, new):
+            return L.And(wf_parts(new, rlen), L.Iff(in_parts(x, [(p[0], p[1]) for p in orig]), in_parts(shifted(x), new)))
+        cl = [("extract_has_the_region_length", out["len"] == rlen)]
+        feats = out["features"]
+        protos = [f for f in feats if f["type"] == "protocluster"]
+        cores = [f for f in feats if f["type"] == "proto_core"]
+        cands = [f for f in feats if f["type"] == "cand_cluster"]
+        regions = [f for f in feats if f["type"] == "region"]
+        m, k = len(exp["protoclusters"]), len(exp["candidates"])
+        cl.append(("every_area_of_the_region_is_present_once",
+                   len(protos) == m and len(cores) == m and len(cands) == k and len(regions) == 1
+                   and sorted(f["product"] for f in protos) == [row[2] for row in exp["protoclusters"]]))
+        if not (len(protos) == m and len(cores) == m and len(cands) == k and len(regions) == 1):
+            return cl
+        by_product = {row[2]: row for row in exp["protoclusters"]}
+        number_of = {}
+        for f in protos:
+            loc, core, _prod = by_product[f["product"]]
+            number_of[f["product"]] = f["protocluster_number"]
+            cl.append(("feature_shifted_covers_same_bases", same_bases(loc, f["loc"])))
+            cl.append(("core_location_shifted_with_the_region", same_bases(core, f["core_location"])))
+        for f in cores:
+            cl.append(("feature_shifted_covers_same_bases", same_bases(by_product[f["product"]][1], f["loc"])))
+            cl.append(("core_feature_carries_its_protocluster_number", f["protocluster_number"] == number_of[f["product"]]))
+        # numbers: 1..m and 1..k, each used once, in the order of the file
+        cl.append(("protoclusters_renumbered_from_one", L.And([L.And(1 <= num_, num_ <= m) for num_ in number_of.values()],
+                                                          m == 1 or list(number_of.values())[0] != list(number_of.values())[-1])))
+        # (numbers follow the order of the full record, which need not be the order within the extract)
+        cand_numbers = [f["candidate_cluster_number"] for f in cands]
+        cl.append(("candidates_renumbered_from_one", L.And([L.And(1 <= c, c <= k) for c in cand_numbers],
+                                                       [a != b for i, a in enumerate(cand_numbers) for b in cand_numbers[i + 1:]])))
+        by_members = {tuple(products): loc for loc, products in exp["candidates"]}
+        cl.append(("every_area_of_the_region_is_present_once", sorted(tuple(f["products"]) for f in cands) == sorted(by_members)))
+        if sorted(tuple(f["products"]) for f in cands) != sorted(by_members):
+            return cl
+        for f in cands:
+            loc, products = by_members[tuple(f["products"])], f["products"]
+            cl.append(("feature_shifted_covers_same_bases", same_bases(loc, f["loc"])))
+            cl.append(("candidate_refers_to_its_renumbered_protoclusters",
+                       L.And(len(f["protoclusters"]) == len(products),
+                             [L.Or([ref == number_of[prod] for ref in f["protoclusters"]]) for prod in products])))
+        cl.append(("region_refers_to_renumbered_candidates",
+                   L.And(len(regions[0]["candidate_cluster_numbers"]) == k,
+                         [L.Or([ref == i + 1 for ref in regions[0]["candidate_cluster_numbers"]]) for i in range(k)])))
+        cl.append(("feature_shifted_covers_same_bases", same_bases(exp["region"], regions[0]["loc"])))
+        if var["prepeptide"]:
+            gs = v["gs0"]
+            motifs = {f["prepeptide"]: f for f in feats if f["type"] == "CDS_motif"}
+            cl.append(("prepeptide_parts_present", sorted(motifs) == ["core", "leader", "tail"]))
+            if sorted(motifs) == ["core", "leader", "tail"]:
+                cl.append(("feature_shifted_covers_same_bases", L.And(same_bases([(gs, gs + 3, 1)], motifs["leader"]["loc"]),
+                                                                     same_bases([(gs + 3, gs + 15, 1)], motifs["core"]["loc"]),
+                                                                     same_bases([(gs + 15, gs + 18, 1)], motifs["tail"]["loc"]))))
+                cl.append(("leader_and_tail_locations_shifted_with_the_region",
+                           L.And(same_bases([(gs, gs + 3, 1)], motifs["core"]["leader_location"]),
+                                 same_bases([(gs + 15, gs + 18, 1)], motifs["core"]["tail_location"]))))
+        same = L.And([L.And(len(a) == len(b), [L.And(p[0] == q[0], p[1] == q[1]) for p, q in zip(a, b)])
+                      for a, b in zip(out["before"], out["after"])])
+        cl.append(("full_record_left_unchanged", L.And(len(out["before"]) == len(out["after"]), same, out["qualifiers_unchanged"])))
+        return cl
+
+
+HARNESSES = [RegionExtract(), RegionExtractMulti()]
